@@ -1,7 +1,7 @@
 HOOK_COMMITS = ["9db45bf"]
 ENGINES = [
     {"name": "evalsrv+python-monitors", "path": "/verif/harness/src/bin/evalsrv.rs + /verif/driver",
-     "serves_properties": ["C01", "C05", "C06", "C19"], "kind_free_text": "batch evaluation server over the public rsjsonnet API (Program/Session/Lexer/Parser/SpanManager) observed by Python oracles (reference models, independent decoders, metamorphic relations)"},
+     "serves_properties": ["C01", "C05", "C06", "C08", "C17", "C18", "C19", "C20"], "kind_free_text": "batch evaluation server over the public rsjsonnet API (Program/Session/Lexer/Parser/SpanManager) observed by Python oracles (reference models, independent decoders, metamorphic relations)"},
     {"name": "gcheap", "path": "/verif/harness/src/bin/gcheap.rs",
      "serves_properties": ["C03"], "kind_free_text": "scripted-heap driver over the real collector (hook 2) with a reference reachability model; exhaustive small scope + random large scope; also run under Miri"},
 ]
@@ -35,5 +35,29 @@ CHECKS = {
         "text": "Exploration with an exhaustive sub-space (all 32 flag subsets x 14 conversions x small widths/precisions): rendered fields equal Python's on the shared subset, are never shorter than their width in characters, g/G and >= 2^53 magnitudes satisfy value/shape invariants, malformed formats and count/type/key mismatches are errors.",
         "note": _BASE_NOTE + " -0.0 under e/f normalised (conventions differ); #o, %.Ns and %(k) with array arguments excluded (upstream conventions differ from Python).",
         "design_ref": "DESIGN.md section 2 C19",
+    },
+    "C08": {
+        "technique": "runtime monitoring: executable model of JSON equality and the spec's ordering vs ==, !=, std.equals, <, <=, >, >=, std.__compare(_array) on all pairs of a hostile value pool; algebraic laws on triples evaluated in-language",
+        "text": "Exploration, exhaustive over all ordered pairs of a ~140-value pool in the thorough tier (sampled in quick): equality/order vectors equal the model's, unordered kinds error, exactly one of < == > on orderable values, transitivity on sampled triples, lazily failing tails beyond the deciding position are not forced.",
+        "note": _BASE_NOTE,
+        "design_ref": "DESIGN.md section 2 C08",
+    },
+    "C17": {
+        "technique": "runtime monitoring: differential oracle (Python stable sorted/dedupe/set algebra by key on index-tagged elements) for sort/uniq/set/setUnion/Inter/Diff/Member/minArray/maxArray",
+        "text": "Exploration with exhaustive sub-spaces (every length 0..200; all 4096 pairs of subsets of a 6-key universe): results equal the reference including stability and which operand's element is kept; lengths up to 1200; some runs with a collection every 3 evaluator steps.",
+        "note": _BASE_NOTE,
+        "design_ref": "DESIGN.md section 2 C17",
+    },
+    "C18": {
+        "technique": "runtime monitoring: differential oracle (Python code-point string operations) and defining identities for ~60 string function families over a mixed-width alphabet",
+        "text": "Exploration: every observed result of length/index/slice/substr/findSubstr/split*/join/strReplace/strip*/trim/case/startsWith/map/flatMap/codepoint/char/format widths on ASCII, 2-/3-/4-byte, combining and overlapping-separator strings equals the code-point reference; out-of-range, negative, fractional and huge arguments give errors.",
+        "note": _BASE_NOTE,
+        "design_ref": "DESIGN.md section 2 C18",
+    },
+    "C20": {
+        "technique": "runtime monitoring: differential oracles (Python int/base64/codecs/hashlib/json/ast/shlex + own strict RFC 8259 decoder), inverse laws, totality monitor for parseYaml on a mutated YAML corpus",
+        "text": "Exploration: parseInt/Octal/Hex exact up to 15 digits and within 1 ulp to 400 digits, non-digits at every position rejected; parseJson accept/reject and value equal a strict reference decoder on generated+mutated documents; parseYaml answers every input and equals parseJson on JSON documents; base64/UTF-8/md5/sha*/escapeString* equal the standard functions incl. block-boundary lengths and corrupted encodings.",
+        "note": _BASE_NOTE + " Lone-surrogate escapes are excluded from the parseJson accept/reject comparison.",
+        "design_ref": "DESIGN.md section 2 C20",
     },
 }
